@@ -20,7 +20,7 @@ ASSUMPTIONS = [
     "AES of the model is OpenSSL libcrypto (EVP, CBC, zero IV), cross-checked against a from-the-definition AES in C16",
     "the writer's single trailing empty line after the hex block is allowed (not part of the stated layout, not contradicting it)",
 ]
-REQUIRED_CLASSES = ["enc-component>4KiB", "flag-tag-mismatch=flag-without-tag", "flag-tag-mismatch=tag-without-flag", "offset>65535", "comps>=2", "bec2.blocks>=2", "bec2.ecc", "enc-component", "route=path", "entries>255", "bec2.unknown-tag-block"]
+REQUIRED_CLASSES = ["same-component-object-listed-twice", "enc-component>4KiB", "flag-tag-mismatch=flag-without-tag", "flag-tag-mismatch=tag-without-flag", "offset>65535", "comps>=2", "bec2.blocks>=2", "bec2.ecc", "enc-component", "route=path", "entries>255", "bec2.unknown-tag-block"]
 
 
 def _model_comps(case, key):
@@ -84,6 +84,8 @@ def check_bf3(case, rec):
     for c in comps:
         if c.get("mismatch"):
             rec.cls("flag-tag-mismatch=" + c["mismatch"])
+    if any(comps[i] == comps[j] for i in range(len(comps)) for j in range(i)):
+        rec.cls("same-component-object-listed-twice")
     rec.cls("route=" + case["route"])
     if len(comps) >= 2 or offset not in (0, 5) or any(c["desc"] for c in comps):
         rec.nt()
@@ -200,7 +202,7 @@ def strat_bf3(tier):
     comp = st.one_of(S.plain_component(mx), S.plain_component(mx), S.enc_component(512), S.mismatch_component(300))
     return st.fixed_dictionaries(dict(
         comments=S.comment_list(4),
-        comps=st.lists(comp, max_size=5),
+        comps=S.with_repeats(st.lists(comp, max_size=5)),
         key=S.session_key(),
         route=st.sampled_from(["stream", "path"]),
         offset=st.one_of(st.sampled_from([0, 1, 5, 255, 256, 65535, 65536, 65537, 1 << 24]), st.integers(0, 1 << 17)),
@@ -212,7 +214,7 @@ def strat_bec2(tier):
     comp = st.one_of(S.plain_component(mx), S.plain_component(mx), S.enc_component(256), S.enc_component(256), S.mismatch_component(200))
     return st.fixed_dictionaries(dict(
         comments=S.comment_list(3),
-        comps=st.lists(comp, max_size=4),
+        comps=S.with_repeats(st.lists(comp, max_size=4)),
         key=S.session_key(allow_default=False),
         blocks=S.auth_blocks(allow_unknown=True),
         route=st.sampled_from(["stream", "path"]),
